@@ -691,44 +691,69 @@ func checkInputsUnchanged(r *Run, cg *CallGraph) {
 				}
 			}
 		}
-		bad := ""
-		var st []ast.Node
-		ast.Inspect(nt.Body, func(n ast.Node) bool {
-			if n == nil {
-				st = st[:len(st)-1]
-				return true
-			}
-			st = append(st, n)
-			id, ok := n.(*ast.Ident)
-			if !ok || pp == nil || info.Uses[id] != pp {
-				return true
-			}
-			par := st[len(st)-2]
-			switch x := par.(type) {
-			case *ast.RangeStmt:
-				if x.X == ast.Expr(id) {
+		// onlyRead: every use of the map parameter is a range, len, comparison, clone, a rebinding of the local variable,
+		// or an argument of a same-package function that itself only reads the corresponding parameter (and therefore
+		// cannot return or store it either)
+		tdecls := FuncDecls(tp)
+		var onlyRead func(fd *ast.FuncDecl, pp types.Object, depth int) string
+		onlyRead = func(fd *ast.FuncDecl, pp types.Object, depth int) string {
+			bad := ""
+			var st []ast.Node
+			ast.Inspect(fd.Body, func(n ast.Node) bool {
+				if n == nil {
+					st = st[:len(st)-1]
 					return true
 				}
-			case *ast.CallExpr:
-				if fid, ok := x.Fun.(*ast.Ident); ok && fid.Name == "len" {
+				st = append(st, n)
+				id, ok := n.(*ast.Ident)
+				if !ok || pp == nil || info.Uses[id] != pp {
 					return true
 				}
-				if f := calleeOf(info, x); f != nil && (f.Name() == "Clone" || f.Name() == "Copy") {
-					return true
-				}
-			case *ast.BinaryExpr:
-				return true
-			case *ast.AssignStmt:
-				// rebinding the local parameter variable (nil default) does not touch the caller's map
-				for _, l := range x.Lhs {
-					if l == ast.Expr(id) {
+				par := st[len(st)-2]
+				switch x := par.(type) {
+				case *ast.RangeStmt:
+					if x.X == ast.Expr(id) {
 						return true
 					}
+				case *ast.CallExpr:
+					if fid, ok := x.Fun.(*ast.Ident); ok && fid.Name == "len" {
+						return true
+					}
+					if f := calleeOf(info, x); f != nil && (f.Name() == "Clone" || f.Name() == "Copy") {
+						return true
+					}
+					if f := calleeOf(info, x); f != nil && f.Pkg() == tp.Types && depth < 3 {
+						if sig, _ := f.Type().(*types.Signature); sig != nil && sig.Recv() == nil && !sig.Variadic() {
+							if hd := tdecls[f.Name()]; hd != nil && hd.Body != nil {
+								for i, a := range x.Args {
+									if a == ast.Expr(id) && i < sig.Params().Len() {
+										if inner := onlyRead(hd, sig.Params().At(i), depth+1); inner == "" {
+											return true
+										} else {
+											bad = f.Name() + ": " + inner
+											return true
+										}
+									}
+								}
+							}
+						}
+					}
+				case *ast.BinaryExpr:
+					return true
+				case *ast.AssignStmt:
+					// rebinding the local parameter variable (nil default) does not touch the caller's map
+					for _, l := range x.Lhs {
+						if l == ast.Expr(id) {
+							return true
+						}
+					}
 				}
-			}
-			bad = exprString(r.Fset, par)
-			return true
-		})
+				bad = exprString(r.Fset, par)
+				return true
+			})
+			return bad
+		}
+		bad := onlyRead(nt, pp, 0)
 		if pp != nil && bad == "" {
 			r.Pass("C05-R3-inputs-unchanged", "NewTranslator:parameters", nt.Pos(), "the caller's parameter map is only ranged over and copied")
 		} else if pp != nil {
